@@ -115,7 +115,8 @@ def corrupt(rng, st):
         g["extra"].append({"name": rng.choice([".DS_Store", ".x"]), "dir": False, "kind": "hidden"})
         return "stray hidden entry in a group", s
     if k == 14:
-        g["extra"].append({"name": "." + bname(g["day"], rng.randrange(86400)), "dir": True, "kind": "temp"})
+        # a killed run leaves its temporary behind; it may have started on a later day than the group
+        g["extra"].append({"name": "." + bname(g["day"] + rng.choice([0, 0, 1, 2, 9]), rng.randrange(86400)), "dir": True, "kind": "temp"})
         return "abandoned temporary backup", s
     if k == 15 and finals:
         b = rng.choice(finals)
@@ -223,7 +224,8 @@ def run(ctx):
         names = [bname(e["day"], e["time"]) for g in st["groups"] for e in g["entries"]]
         per_group_ok = all(len({bname(e["day"], e["time"]) for e in g["entries"]} | {x["name"] for x in g["extra"]}) == len(g["entries"]) + len(g["extra"])
                            for g in st["groups"])
-        if not per_group_ok or len({g["day"] for g in st["groups"]}) != len(st["groups"]):
+        root_names = [x["name"] for x in st["root_extra"]]
+        if not per_group_ok or len(set(root_names)) != len(root_names) or len({g["day"] for g in st["groups"]}) != len(st["groups"]):
             continue
         storages.append((labels, st))
     sb = slevel.Sandbox("c13")
@@ -271,10 +273,43 @@ def run(ctx):
         age_part(ctx, sb)
     finally:
         sb.close()
-    from vlib import runs
-    runs.c13_runs(ctx)
+    runs_part(ctx)
     ctx.assumptions += ["regex crate matches the two name patterns as written (they are transcribed into the generator's classification)",
                         "zstd decoding fails on garbage / truncated input (observed)"]
+
+
+def runs_part(ctx):
+    """second claim: histories of real runs - completing, failing with an injected I/O error, killed at a storage call -
+    on the same and on later days; after every run the real verifier must accept the storage (known findings F3 / F10
+    are recognised by their class)"""
+    from vlib import runs, trace
+    rng = ctx.rng
+    thorough = ctx.tier == "thorough"
+    nhist, nruns = (40, 8) if thorough else (5, 6)
+    for h in range(nhist):
+        with slevel.Sandbox("c13r") as sb:
+            H = runs.History(ctx, sb, rng, "C13", rng.randrange(1, 4), rng.randrange(1, 4))
+            H.w.populate(nfiles=5)
+            for i in range(nruns):
+                r = rng.random()
+                kw = None
+                if r < 0.25:
+                    sc, k = rng.choice([("mkdir", 1), ("mkdir", 2), ("fsync", 1), ("fsync", 2), ("fsync", 3), ("rename", 1), ("openat", 12), ("write", 9)])
+                    kw = {"prefix": trace.strace_cmd(sb.path("k.txt"), trace.STORAGE_CALLS, inject=["%s:signal=KILL:when=%d" % (sc, k)])}
+                    ctx.count("runs.killed")
+                elif r < 0.45:
+                    sc, k, err = rng.choice([("mkdir", 2, "ENOSPC"), ("fsync", 1, "EIO"), ("fsync", 3, "EIO"), ("rename", 1, "EACCES"), ("write", 8, "ENOSPC")])
+                    kw = {"prefix": trace.strace_cmd(sb.path("k.txt"), trace.STORAGE_CALLS, inject=["%s:error=%s:when=%d" % (sc, err, k)])}
+                    ctx.count("runs.failing")
+                else:
+                    ctx.count("runs.completing")
+                H.run(backup_kwargs=kw)
+                if len(ctx.violations) >= 3:
+                    break
+            if len(ctx.samples) < 6:
+                ctx.sample({"run_history": H.log[:5]})
+        if ctx.violations:
+            break
 
 
 def age_part(ctx, sb):
